@@ -25,6 +25,8 @@ pub mod trace;
 pub mod transform;
 pub mod vcell;
 pub mod vector;
+#[cfg(marwood_verif)]
+pub mod verif;
 
 const HEAP_CHUNK_SIZE: usize = 8192;
 
@@ -48,6 +50,10 @@ pub struct Vm {
 
     /// Stacktrace of last error
     last_stacktrace: Option<StackTrace>,
+
+    /// Verification hooks (see vm/verif.rs)
+    #[cfg(marwood_verif)]
+    verif: verif::VerifState,
 }
 
 impl Vm {
@@ -65,6 +71,8 @@ impl Vm {
             bp: 0,
             sys: Box::new(StubInterface {}),
             last_stacktrace: None,
+            #[cfg(marwood_verif)]
+            verif: verif::VerifState::default(),
         };
         vm.load_builtins();
         vm.load_prelude();
